@@ -86,6 +86,26 @@ def _zero_pad_ok(ex, padded: Term, data_param: str, block: int = 16):
     return True, ""
 
 
+def _is_own_iv(iv: Term) -> bool:
+    """self._iv, or the documented meaning of a missing IV spelled out: 16 zero bytes when self._iv is None, else self._iv"""
+    iv = unsnap(iv)
+    if iv.op == "attr" and iv.args[1] == "_iv":
+        return True
+    if iv.op == "phi":
+        from bfsa.guard import rel
+
+        cond, a, b = iv.args[0], unsnap(iv.args[1]), unsnap(iv.args[2])
+        r = rel(cond, True)
+        if r[0] == "rel" and r[1] in ("Is", "IsNot", "Eq", "NotEq"):
+            x, y = unsnap(r[2]), unsnap(r[3])
+            if y.op == "attr":
+                x, y = y, x
+            if x.op == "attr" and x.args[1] == "_iv" and y is NONE:
+                none_arm, other = (a, b) if r[1] in ("Is", "Eq") else (b, a)
+                return is_const(none_arm) and cval(none_arm) == bytes(16) and other is x
+    return False
+
+
 def adapter_rules(prog, chk, pid, want=None):
     """C16.R5..R9"""
     cls = registered_aes(prog)
@@ -122,7 +142,7 @@ def adapter_rules(prog, chk, pid, want=None):
         if ok:
             a = list(news[0].d["args"]) + [news[0].d["kwargs"].get("iv")] if len(news[0].d["args"]) < 2 else list(news[0].d["args"])
             k, iv = unsnap(a[0]), (unsnap(a[1]) if len(a) > 1 and a[1] is not None else None)
-            ok = k.op == "attr" and k.args[1] == "_key" and iv is not None and iv.op == "attr" and iv.args[1] == "_iv"
+            ok = k.op == "attr" and k.args[1] == "_key" and iv is not None and _is_own_iv(iv)
             why = "mode is built from (%s, %s), not (self._key, self._iv)" % (show(k, 3), show(iv, 3) if iv is not None else None)
         chk.require(ok, P("adapter.fresh-mode"), fi.qualname, "AESModeOfOperationCBC(self._key, self._iv) per call", where, "a new CBC mode object starts from the IV on every call (no chaining across calls)", why)
         stores = [e for e in res.events if e.kind in ("setattr", "gstore", "clsstore") and e.stack == (fi.qualname,)]
